@@ -85,13 +85,13 @@ fn guard_to_boundary<T: ToTokens>(
                     for validator in validators {
                         match validator {
                             IntegerValidator::Greater(gt) => {
-                                boundary.min = quote!(#gt + 1);
+                                boundary.min = quote!((#gt) + 1);
                             }
                             IntegerValidator::GreaterOrEqual(gte) => {
                                 boundary.min = quote!(#gte);
                             }
                             IntegerValidator::Less(lt) => {
-                                boundary.max = quote!(#lt - 1);
+                                boundary.max = quote!((#lt) - 1);
                             }
                             IntegerValidator::LessOrEqual(lte) => {
                                 boundary.max = quote!(#lte);
